@@ -1196,17 +1196,20 @@ def oracle(c, r):
         a, b = r["a"], r["b"]
         if "raised" in a:
             return "identifier of the base fit raised %s" % a["raised"]
+        # the observable is search.paths.identifier (the folder name) wherever a paths object exists
+        ida = a.get("paths_identifier") or a["identifier"]
+        idb = b.get("identifier") if b.get("route") in ("reload", "files", "fit") else (b.get("paths_identifier") or b.get("identifier"))
         if b.get("skipped"):
             return None
         if c["expect"] == "same":
             if "raised" in b:
                 return "equal construction (%s): %s while %s the fit's own files" % (c["how"], b["raised"], "reading" if b.get("stage") == "read" else "writing/reading")
-            if b["identifier"] != a["identifier"]:
+            if idb != ida:
                 return "equal construction (%s) has a different identifier" % c["how"]
             if b.get("route") in ("files", "fit"):
                 if b.get("folder") != b.get("paths_identifier") or not b.get("folder_exists"):
                     return "output folder is not named by the identifier"
-                if b.get("paths_identifier") != a["identifier"]:
+                if b.get("paths_identifier") != ida:
                     return "paths.identifier of the written fit differs from the identifier"
             if b.get("route") == "reload":
                 pc = b.get("prior_count")
@@ -1217,7 +1220,7 @@ def oracle(c, r):
             return None
         if "raised" in b:
             return "identifier of the perturbed fit raised %s" % b["raised"]
-        if a["identifier"] == b["identifier"]:
+        if ida == idb:
             return "two different fits (%s) have the same identifier" % c["how"]
         return None
     if k == "walk":
